@@ -251,15 +251,37 @@ Theorem C10_ok_means_exact_gnutar_gname : forall name lk un gn e t, fst (gnutar_
 Proof. exact gnutar_ok_gname. Qed.
 Print Assumptions C10_ok_means_exact_gnutar_gname.
 
-(* a refused gnutar entry may already have written its 'L' long-name pseudo entry: a socket (unsupported type)
-   with a 101-byte name returns ARCHIVE_FAILED after 1024 bytes went out, and the NEXT entry inherits the name *)
+(* refusing an entry.  The writer exists in two shapes (switch GNUTAR_header_first regenerated from the source):
+   - header_first = false: the 'K'/'L' long-name records are written before the type of the entry is looked at and its
+     header formatted; a socket (unsupported type) with a 101-byte name returns ARCHIVE_FAILED after 1024 bytes went
+     out, and the NEXT entry inherits the name: the statement "a refused entry writes nothing" is refuted;
+   - header_first = true (fixes/C10-gnutar-refusal-after-longname.diff): type and header first; an entry refused for
+     its type or by its header leaves nothing in the archive. *)
 Theorem C10_refused_writes_nothing_gnutar_refuted : exists e,
-  w_status (gnutar_entry true e) = ST_FAILED /\ length (w_hdr (gnutar_entry true e)) = 1024%nat.
+  w_status (gnutar_entry_gen false true e) = ST_FAILED /\ length (w_hdr (gnutar_entry_gen false true e)) = 1024%nat.
 Proof.
   exists (mkEntry (Some (repeat 97 101)) None None None None (IFSOCK + 420) 0 0 (Some 0) 0 0 0 1 0 []).
   split; vm_compute; reflexivity.
 Qed.
 Print Assumptions C10_refused_writes_nothing_gnutar_refuted.
+
+Theorem C10_refused_writes_nothing_gnutar_header_first : forall full e,
+  is_some (e_path e) = true ->
+  let e' := dir_slash (no_body e) in
+  (gnutar_typeflag e' = None \/
+   exists t, gnutar_typeflag e' = Some t /\
+             fst (gnutar_header (ob (e_path e')) (linkname_of e') (ob (e_uname e')) (ob (e_gname e')) e' t) < ST_WARN) ->
+  w_hdr (gnutar_entry_gen true full e) = [] /\ w_status (gnutar_entry_gen true full e) < ST_WARN.
+Proof.
+  intros full e Hp e' H. unfold gnutar_entry_gen. rewrite Hp. cbn [negb]. fold e'.
+  destruct H as [H | [t [Ht Hs]]].
+  - rewrite H. cbn [w_hdr w_status]. split; [reflexivity | unfold ST_FAILED, ST_WARN, ARCHIVE_FAILED, ARCHIVE_WARN; lia].
+  - rewrite Ht.
+    destruct (gnutar_header (ob (e_path e')) (linkname_of e') (ob (e_uname e')) (ob (e_gname e')) e' t) as [ret h].
+    cbn [fst] in Hs. replace (ret <? ST_WARN) with true by (symmetry; apply Z.ltb_lt; assumption).
+    cbn [w_hdr w_status]. split; [reflexivity | assumption].
+Qed.
+Print Assumptions C10_refused_writes_nothing_gnutar_header_first.
 
 (* ================================================================== 5. cpio odc *)
 (* a written header (status OK or WARN) has an exact file size field *)
